@@ -435,6 +435,10 @@ func (x *Exec) havocLoc(st *State, loc EV, hint string) {
 			x.writeElem(st, v.Obj, v.Idx, v.Path, v.Elem, x.symbolic(st, v.Elem, "hv", false, 1))
 			return
 		}
+		if strings.HasSuffix(types.TypeString(v.Elem, nil), "strings.Builder") {
+			x.sbHavoc(st, v)
+			return
+		}
 		os := x.objState(st, v.Obj)
 		st.mem[v.Obj] = &ObjState{Val: setPath(os.Val, v.Path, x.symbolic(st, v.Elem, "hv."+shortKey(hint), false, 1))}
 	default:
@@ -720,6 +724,11 @@ func (x *Exec) svalEq(a, b SVal) *Term {
 		return tb.Eq(av.Id, bv.Id)
 	case *ArrayV:
 		return tb.True()
+	case *ArrayRef:
+		if bv, ok := b.(*ArrayRef); ok && bv.Obj == av.Obj {
+			return tb.True()
+		}
+		return tb.False()
 	}
 	return tb.False()
 }
@@ -921,6 +930,38 @@ func (x *Exec) builtinModel(fr *Frame, st *State, fn *ssa.Function, name string,
 		model()
 		k(st, x.errIs(args[0].(*IfaceV), args[1].(*IfaceV)))
 		return true
+	case "fmt.Fprintf":
+		// only the shape fmt.Fprintf(*strings.Builder, "%c", rune) is modelled exactly (ghost append)
+		if w, ok := args[0].(*IfaceV); ok && w.Dyn != nil && strings.HasSuffix(types.TypeString(w.Dyn, nil), "strings.Builder") {
+			if fmtc, isC := args[1].(*Term); isC && fmtc == x.strConst("%c") {
+				if va, isS := args[2].(*SliceV); isS && va.Len.IsConst() && va.Len.val.Int64() == 1 {
+					el := x.readElem(st, va.Obj, va.Off, nil, va.Elem)
+					if iv, isI := el.(*IfaceV); isI && iv.Dyn != nil {
+						if ch, isT := iv.Val.(*Term); isT && ch.sort == BV(32) {
+							model()
+							x.sbAppend(st, w.Val.(*PtrV), ch)
+							k(st, &TupleV{Vals: []SVal{tb.Fresh("fprintf.n", BV(64)), &IfaceV{Tag: tb.Intc(0), Id: tb.Intc(0)}}})
+							return true
+						}
+					}
+				}
+			}
+		}
+		x.unmodelled["fmt.Fprintf (shape other than Fprintf(*strings.Builder, \"%c\", rune))"] = true
+		k(st, x.havocResult(st, fn.Signature.Results(), fn.Name()))
+		return true
+	case "(*strings.Builder).String":
+		model()
+		c, n := x.sbGet(st, args[0].(*PtrV))
+		sv := tb.Fresh("sbstring", SInt)
+		st.Assume(tb.mk(">=", SBool, nil, "", sv, tb.Intc(0)))
+		st.Assume(tb.Eq(x.strLen(sv), n))
+		if x.strContents == nil {
+			x.strContents = map[int]*Content{}
+		}
+		x.strContents[sv.id] = c
+		k(st, sv)
+		return true
 	case "fmt.Sprintf", "fmt.Sprint":
 		model()
 		k(st, tb.Fresh("sprintf", SInt))
@@ -1003,4 +1044,40 @@ func (x *Exec) lockObl(st *State, fr *Frame, what string, g *Term, pos token.Pos
 	if x.lockDiscipline {
 		x.addObl(st, fmt.Sprintf("%s/lock/%s", x.key, what), "lock", g, pos, nil)
 	}
+}
+
+// ---------- strings.Builder ghost model: (content, length) per builder object ----------
+
+type sbGhost struct {
+	c *Content
+	n *Term
+}
+
+func (x *Exec) sbGet(st *State, p *PtrV) (*Content, *Term) {
+	key := fmt.Sprintf("sb:%d", p.Obj.ID)
+	if g, ok := st.ghost[key]; ok {
+		sg := g.(*sbGhost)
+		return sg.c, sg.n
+	}
+	return x.ContentConst(x.tb.BVi(32, 0)), x.tb.BVi(64, 0)
+}
+
+func (x *Exec) sbAppend(st *State, p *PtrV, ch *Term) {
+	c, n := x.sbGet(st, p)
+	st.ghost[fmt.Sprintf("sb:%d", p.Obj.ID)] = &sbGhost{c: x.StoreC(c, n, ch), n: x.tb.BVBin("bvadd", n, x.tb.BVi(64, 1))}
+}
+
+func (x *Exec) sbHavoc(st *State, p *PtrV) {
+	n := x.tb.Fresh("sb.len", BV(64))
+	st.Assume(x.tb.BVCmp("bvsle", x.tb.BVi(64, 0), n))
+	st.ghost[fmt.Sprintf("sb:%d", p.Obj.ID)] = &sbGhost{c: x.ContentBase("sb", BV(32)), n: n}
+}
+
+// strChar: k-th character of a string value (ghost content when known, uninterpreted otherwise).
+func (x *Exec) strChar(s *Term, k *Term) *Term {
+	if c, ok := x.strContents[s.id]; ok {
+		return x.Select(c, k)
+	}
+	f := x.tb.DeclareFun("strchar", []Sort{SInt, BV(64)}, BV(32))
+	return x.tb.App(f, s, k)
 }
